@@ -8,7 +8,7 @@ cd /verif
 for x in "a $a" "b $b"; do set -- $x
   python3 scripts/confirm_seed.py /tmp/seedout/$p$r/$1 $p$2 $p > /tmp/cs_$p$2.log 2>&1
   if [ -f seeded/$p$2/meta.json ]; then
-    flock /tmp/seeds_fv.lock python3 scripts/seeds_fv.py $p$2
+    python3 scripts/seeds_fv.py $p$2
   else
     echo "$p$2: NOT CONFIRMED ($(grep -o '"suite_with_change": {[^}]*}' /tmp/cs_$p$2.log | tr -d '\n ') $(grep -o 'FAILED.*' /tmp/cs_$p$2.log | head -1))"
   fi
